@@ -24,6 +24,16 @@ if os.path.exists(f"{src}/meta.json"):
         agent = {}
 caught = {}
 props = sorted(p[:-3].upper() for p in os.listdir("/verif/hgv/props") if re.fullmatch(r"c\d\d\.py", p))
+fast_note = None
+if os.environ.get("KEEP_FAST") == "1":
+    # fast mode: re-check the own property and the properties that reported the change in the first run only
+    fr = ""
+    try:
+        fr = open(f"{src}/first_run.txt").read()
+    except OSError:
+        pass
+    props = sorted({prop} | set(re.findall(r"(C\d\d):\[", fr)))
+    fast_note = "fast mode: only the own property and the properties that reported the change in the first run were re-checked"
 env = dict(os.environ, HGV_PATCH=f"{src}/patch.diff", HGV_EVIDENCE_DIR=f"/tmp/hgv_try_evidence_{os.getpid()}")
 for p in props:
     r = subprocess.run(["python3-vt", "-m", "hgv", "check", p], cwd="/verif", env=env, capture_output=True, text=True)
@@ -52,6 +62,7 @@ meta = {
         "unmodified_tail": tail(f"{src}/confirm_unmodified.out"), "modified_tail": tail(f"{src}/confirm_modified.out"),
     },
     "detected_by": caught,
+    **({"detected_by_note": fast_note} if fast_note else {}),
     "detected_by_own_property": prop in caught and bool(caught[prop]["rules"]),
     "apply": f"git -C /repo apply /verif/seeded/{sid}/patch.diff ; <run checks> ; git -C /repo checkout -- .",
 }
